@@ -72,13 +72,15 @@ OpsDomain(c, ops) == \A j \in DOMAIN ops : OpDomain(c, ops[j])
 (* navigation *)
 \* the directed links that start at class c, in the order they were defined:
 \* <<kind reached, number, phrase, association, direction>>
-LinksOf(c) ==
+LinksOf0(c) ==
     LET RECURSIVE L(_)
         L(a) == IF a > NA THEN <<>>
                 ELSE (IF Tgt(a) = c THEN <<[kind |-> Src(a), rel |-> Assocs[a].rel, ph |-> Assocs[a].tphrase, a |-> a, d |-> "fwd"]>> ELSE <<>>)
                   \o (IF Src(a) = c THEN <<[kind |-> Tgt(a), rel |-> Assocs[a].rel, ph |-> Assocs[a].sphrase, a |-> a, d |-> "bwd"]>> ELSE <<>>)
                   \o L(a + 1)
     IN L(1)
+LinksOfF == [c \in ClassSet |-> LinksOf0(c)]
+LinksOf(c) == IF c \in ClassSet THEN LinksOfF[c] ELSE LinksOf0(c)
 
 Across(lk, i) == IF lk.d = "fwd" THEN fwd[lk.a][i] ELSE bwd[lk.a][i]
 
